@@ -62,7 +62,7 @@ TABLE.update({
  "C03-F": ("libopenwater", "D=$(mktemp -d) && go build -buildmode=c-shared -o $D/libopenwater.so ./libopenwater/ && gcc -O1 -o $D/driver %(out)s/demo/c03f_driver.c -I$D -L$D -lopenwater -Wl,-rpath,$D && $D/driver; rc=$?; rm -rf $D; exit $rc"),
  "C04-E": ("models/conversion", "go test -vet=off -count=1 -run TestC04EDemo ./models/conversion/"),
  "C04-F": ("models/storage", "go test -vet=off -count=1 -run TestC04FDemo ./models/storage/"),
- "C05-E": ("models/rr", "go test -vet=off -count=1 -run TestC05E ./models/rr/"),
+ "C05-E": ("models/storage", "go test -vet=off -count=1 -run TestC05E ./models/storage/"),
  "C05-F": ("cmd/ow-sim", "go1.26.8 test -race -modfile=%(stub)s -vet=off -count=1 -run TestC05F ./cmd/ow-sim/"),
  "C06-E": ("models/storage", "go test -vet=off -count=1 -run TestC06E ./models/storage/"),
  "C06-F": ("models/routing", "go test -vet=off -count=1 -run TestC06F ./models/routing/"),
